@@ -2,6 +2,7 @@ package middleware
 
 import (
 	"context"
+	"strings"
 
 	"github.com/cockroachdb/errors"
 	"github.com/cockroachdb/errors/extgrpc"
@@ -32,7 +33,11 @@ func UnaryServerInterceptor(
 			// encoded error below.
 			code = codes.Unknown
 		}
-		st = status.New(code, err.Error())
+		// The status message is a protobuf string: it must be valid
+		// UTF-8, otherwise gRPC fails to marshal the status and sends it
+		// without its details. The exact text travels inside the encoded
+		// error below.
+		st = status.New(code, strings.ToValidUTF8(err.Error(), "\uFFFD"))
 		enc := errors.EncodeError(ctx, err)
 		st, err = st.WithDetails(&enc)
 		if err != nil {
